@@ -21,6 +21,13 @@
 //! out on chain; node 0's event handler refuses the PaymentFailed event once (asking for a replay) and
 //! node 0 restarts from a manager written before the channel closed:
 //!   P9  (C03) the payer is still told PaymentFailed: a terminal event is delivered until it is handled
+//! An eighth kind (7) also looks at the payer: node 0 has payment 1 committed towards node 1 and writes its manager;
+//! node 1's user claims while node 0 is sending payment 2, so that the fulfilment of 1 and the addition of 2 cross;
+//! node 0 handles PaymentSent, node 1's revocation for the commitment that added payment 2 arrives (the revoked
+//! counterparty commitment and the current one both still contain HTLC 1), and node 0 restarts from the manager
+//! written at the start with its latest monitors. The channel is closed as stale and resolved on chain:
+//!   P4  (C03, judged by the payment monitor) payment 1 is never reported PaymentFailed: the monitor holds what
+//!       settled it
 use crate::run::Sim;
 use crate::sim::{Obs, SendOpts};
 use crate::wire::Wire;
@@ -127,6 +134,13 @@ pub fn phase(sim: &mut Sim, rng: &mut Rng, rep: &mut Report, only_kind: Option<u
 	let amt = 1_500_000 + rng.below(cap - 1_500_000);
 	// (the payer's restart – kind 6 – is C03's matter and runs as a stage of that check)
 	let kind = only_kind.unwrap_or_else(|| rng.below(6));
+	if kind == 7 {
+		let amt1 = 1_000_000 + rng.below((hi / 4).max(1));
+		let amt2 = 1_000_000 + rng.below((hi / 4).max(1));
+		let final_cltv = tc.min_final_cltv_expiry_delta as u32 + *rng.pick(&[0u32, 5, 30]);
+		let order = rng.below(3);
+		return stale_sender_crossing(sim, rep, c01, amt1, amt2, final_cltv, tc.anti_reorg_delay, order);
+	}
 	if kind == 6 {
 		let amt = 1_000_000 + rng.below((hi / 3).max(1));
 		let final_cltv = tc.min_final_cltv_expiry_delta as u32 + *rng.pick(&[0u32, 5, 30]);
@@ -499,6 +513,138 @@ fn sender_restart(sim: &mut Sim, rep: &mut Report, c01: usize, amt: u64, final_c
 		sim.raised.push(("C03".into(), "P1-truthful-sent".into(), "the payer saw PaymentSent although the recipient never claimed".into(), detail));
 	} else if !failed_after {
 		sim.raised.push(("C03".into(), "P9-terminal-event-survives-restart".into(), "PaymentFailed, refused once by the event handler, was never delivered again after a restart from an older ChannelManager: the payment has no HTLC left and no terminal event".into(), detail));
+	}
+	Ok(())
+}
+
+/// Kind 7: crossing fulfil / add, then a restart of the payer from a manager older than both (see the module text).
+fn stale_sender_crossing(sim: &mut Sim, rep: &mut Report, c01: usize, amt1: u64, amt2: u64, final_cltv: u32, anti_reorg: u32, order: u64) -> Result<(), String> {
+	sim.w.step += 1;
+	sim.w.note(format!("DEADLINE scenario kind 7 (stale payer, crossing updates) amounts {} {} final cltv delta {} order {}", amt1, amt2, final_cltv, order));
+	let p1 = match sim.w.send_payment_ex(0, &[(vec![c01], amt1)], final_cltv, SendOpts { class: "deadline-direct", ..Default::default() }, None) {
+		Ok(p) => p,
+		Err(_) => {
+			sim.dispatch(rep);
+			return Ok(());
+		},
+	};
+	let hash1 = sim.w.payments[p1].hash.0;
+	turn(sim, true);
+	sim.dispatch(rep);
+	let k = match sim.w.claimable.iter().position(|c| c.hash.0 == hash1 && c.node == 1) {
+		Some(k) => k,
+		None => {
+			rep.count("c08_scenarios_htlc_not_committed");
+			return Ok(());
+		},
+	};
+	for n in 0..sim.w.nodes.len() {
+		sim.w.complete_all(n);
+	}
+	// the manager the payer will come back with: payment 1 pending, nothing else
+	sim.w.snapshot(0);
+	let snap = sim.w.nodes[0].snapshots.len() - 1;
+	sim.w.step += 1;
+	if sim.w.queue_len(0, 1) != 0 || sim.w.queue_len(1, 0) != 0 {
+		rep.count("c03_p4_crossing_scenarios_skipped_busy_link");
+		return Ok(());
+	}
+	// the recipient's user claims (fulfil + commitment_signed wait on the wire) while the payer sends payment 2
+	sim.w.note("DEADLINE the recipient claims payment 1; its messages are held while the payer sends payment 2".to_string());
+	sim.w.claim(k);
+	sim.w.complete_all(1);
+	sim.w.pump(1);
+	let held_back = sim.w.queue_len(1, 0);
+	let p2 = sim.w.send_payment_ex(0, &[(vec![c01], amt2)], final_cltv, SendOpts { class: "deadline-direct", ..Default::default() }, None);
+	sim.w.complete_all(0);
+	sim.w.pump(0);
+	let to_b = sim.w.queue_len(0, 1);
+	if held_back == 0 || p2.is_err() || to_b == 0 {
+		rep.count("c03_p4_crossing_scenarios_not_crossing");
+		turn(sim, true);
+		sim.dispatch(rep);
+		return Ok(());
+	}
+	// the payer sees the fulfilment (and handles PaymentSent) ...
+	for _ in 0..held_back {
+		sim.w.deliver_one(1, 0);
+		sim.w.complete_all(0);
+	}
+	sim.w.process_events(0);
+	sim.dispatch(rep);
+	// ... the recipient sees the addition of payment 2 and revokes; the payer gets that revocation. In one of three
+	// orders the payer's own revocation reaches the recipient first, in another the recipient's new commitment follows
+	for _ in 0..to_b {
+		sim.w.deliver_one(0, 1);
+		sim.w.complete_all(1);
+	}
+	if order == 1 {
+		while sim.w.deliver_one(0, 1) {
+			sim.w.complete_all(1);
+		}
+	}
+	let answers = sim.w.queue_len(1, 0);
+	for i in 0..answers {
+		if i >= 1 && order != 2 {
+			break; // only the revoke_and_ack
+		}
+		sim.w.deliver_one(1, 0);
+		sim.w.complete_all(0);
+	}
+	sim.w.process_events(0);
+	sim.dispatch(rep);
+	if !sim.raised.is_empty() {
+		return Ok(());
+	}
+	for n in 0..sim.w.nodes.len() {
+		sim.w.complete_all(n);
+	}
+	sim.w.step += 1;
+	sim.w.note("DEADLINE the payer restarts from the manager written before the crossing".to_string());
+	if let Err(e) = sim.w.restart(0, Some(snap), &[]) {
+		sim.raised.push(("C10".into(), "S1-reload".into(), format!("reload from persisted state failed: {}", vcore::canon(&e)), format!("node0 in a deadline scenario: {}", e)));
+		return Ok(());
+	}
+	rep.count("c03_p4_stale_payer_restarts_after_crossing_updates");
+	let (mut sent1, mut failed1) = (0u32, 0u32);
+	let mut tally = |sim: &Sim, sent1: &mut u32, failed1: &mut u32| {
+		for o in sim.w.obs.iter() {
+			match o {
+				Obs::Event { node: 0, ev: Event::PaymentFailed { payment_hash: Some(ph), .. }, .. } if ph.0 == hash1 => *failed1 += 1,
+				Obs::Event { node: 0, ev: Event::PaymentSent { payment_hash, .. }, .. } if payment_hash.0 == hash1 => *sent1 += 1,
+				_ => {},
+			}
+		}
+	};
+	tally(sim, &mut sent1, &mut failed1);
+	sim.dispatch(rep);
+	sim.w.connect(0, 1);
+	turn(sim, true);
+	tally(sim, &mut sent1, &mut failed1);
+	sim.dispatch(rep);
+	// the stale channel resolves on chain; everything is handled as it comes
+	let end = sim.w.chain.height() + final_cltv + 3 * anti_reorg + 40;
+	while sim.w.chain.height() < end {
+		sim.w.mine(1);
+		for n in 0..sim.w.nodes.len() {
+			sim.w.nodes[n].mon.rebroadcast_pending_claims();
+			sim.w.complete_all(n);
+			sim.w.process_events(n);
+		}
+		turn(sim, true);
+		tally(sim, &mut sent1, &mut failed1);
+		sim.dispatch(rep);
+		if !sim.raised.is_empty() {
+			return Ok(());
+		}
+	}
+	rep.count("c03_p4_crossing_scenarios_judged");
+	if sent1 > 0 {
+		rep.count("c03_p4_payment_sent_replayed_after_the_stale_restart");
+	}
+	if failed1 > 0 {
+		// (the payment monitor has raised P4 when it saw the event; this is the scenario's own statement of it)
+		sim.raised.push(("C03".into(), "P4-one-terminal-event".into(), "a payment the recipient claimed, reported PaymentSent before a restart from an older ChannelManager, was reported PaymentFailed after it although the HTLC was still in the counterparty's commitment and the monitor had recorded the claim".into(), format!("payment#{} sent_after_restart {} failed_after_restart {}", p1, sent1, failed1)));
 	}
 	Ok(())
 }
